@@ -261,3 +261,20 @@ func specTagLookup(lit, conventional, key, val string) bool {
 	got, ok := reflect.StructTag(u).Lookup(key)
 	return ok && got == val
 }
+
+// specIsOneComment: s scans as exactly one comment token and nothing else.
+func specIsOneComment(s string) bool {
+	toks := specScan(s)
+	if toks == nil {
+		return false
+	}
+	n := 0
+	for _, t := range toks {
+		if t.tok == gotoken.COMMENT {
+			n++
+		} else if !(t.tok == gotoken.SEMICOLON && t.lit == "\n") {
+			return false
+		}
+	}
+	return n == 1
+}
